@@ -84,20 +84,19 @@ theorem C54_loaded_in_range (cmd : Option Cmd) (q fs : Option Int)
     (h : actionFileCheck cmd q fs = .ok) :
     ∃ qv f, q = some qv ∧ fs = some f ∧ 64 ≤ f ∧ f ≤ 4096 ∧
       ((cmd = some .gzip ∧ -2 ≤ qv ∧ qv ≤ 9) ∨ (cmd = some .brotli ∧ 0 ≤ qv ∧ qv ≤ 11)) := by
-  unfold actionFileCheck at h
   cases cmd with
-  | none => simp at h
+  | none => simp [actionFileCheck] at h
   | some c =>
-    cases c with
-    | other => simp at h
-    | gzip =>
-      cases q with
-      | none => simp at h
-      | some qv =>
-        cases fs with
-        | none => simp at h; split at h <;> simp at h
-        | some f =>
-          simp only [if_true] at h
+    cases q with
+    | none => simp [actionFileCheck] at h
+    | some qv =>
+      cases fs with
+      | none => simp [actionFileCheck] at h
+      | some f =>
+        cases c with
+        | other => simp [actionFileCheck] at h
+        | gzip =>
+          simp only [actionFileCheck, if_true] at h
           split at h
           · simp at h
           · split at h
@@ -105,14 +104,8 @@ theorem C54_loaded_in_range (cmd : Option Cmd) (q fs : Option Int)
             · rename_i h1 h2
               simp only [Bool.or_eq_true, decide_eq_true_eq, not_or, Int.not_lt] at h1 h2
               exact ⟨qv, f, rfl, rfl, h2.1, h2.2, Or.inl ⟨rfl, h1.1, h1.2⟩⟩
-    | brotli =>
-      cases q with
-      | none => simp at h
-      | some qv =>
-        cases fs with
-        | none => simp at h; split at h <;> simp at h
-        | some f =>
-          simp only [show ¬ (Cmd.brotli = Cmd.gzip) by decide, if_false] at h
+        | brotli =>
+          simp only [actionFileCheck, show ¬ (Cmd.brotli = Cmd.gzip) by decide, if_false] at h
           split at h
           · simp at h
           · split at h
@@ -143,7 +136,7 @@ theorem C54_witness_flush0 (d : Bytes) (rest : List Bytes) :
 
 example : actionFileCheck (some .brotli) (some 4) (some 64) = .ok := by decide
 example : actionFileCheck (some .brotli) (some 4) (some 0) = .err := by decide
-example : actionFileCheck (some .gzip) none (some 512) = .panic := by decide
+example : actionFileCheck (some .gzip) none (some 512) = .err := by decide
 example : (drain 2 6 [[7], [], [8, 9, 10], [11]]).1 = [7, 8, 9, 10, 11] := by decide
 
 /-- **C54_headers.**  If the handler installs a compression filter then it announces that coding in
